@@ -52,6 +52,9 @@ CHECKS = {
  'C20': ('exploration', 'parse-back of build_task_diagram output compared with an independent traversal of the generated graph; cross-interpreter digest comparison',
          'Held on every explored graph: one class block per reachable type with all fields and run signature, one arrow per (dependent type, parameter, dependency type) with the right "many" flag, deterministic output.',
          'Per-arrow reading of "many"; block/arrow order not asserted.', '4 C20'),
+ 'C11': ('fault_enumeration', 'logical spin detector at the Runner boundary + bounded-progress watchdog with logical confirmation (no worker alive) under failures, deaths and external SIGKILLs via pidfds',
+         'Held on every explored run: no three consecutive wait() calls with nothing in flight; every run returned or raised within B=30 s; a watchdog expiry counts as violated only when no worker of the run is alive.',
+         'Liveness restated as bounded progress; B=30 s vs 0.5 s polling and sub-0.1 s tasks.', '4 C11'),
  'C12': ('fault_enumeration', 'single-fault exception injection at every executed line of the save path (sys.monitoring failpoint), every storage open/write/flush/close, unpicklable results; post-state oracle reported => loadable',
          'Held for every enumerated fault point x cache format x first/overwrite x shape x victim (serial caller, fork worker): the task is reported failed and its entry is either not reported or loads the old/new value; bystander entry intact.',
          'Line and write-call granularity; storage faults raised by a LocalStorage subclass.', '4 C12'),
